@@ -73,7 +73,13 @@ def write_cfg(overrides, name=None):
 
     for line in lines:
         w = line.split("#")[0].split()
-        if w and w[0] in overrides and len(w) == 2:
+        if len(w) > 2 and "ROW:%s %s" % (w[0], w[1]) in overrides:
+            # a row of a table (hydrogen-bond parameters of one group type) replaced where it stands:
+            # an appended second definition would extend the row's list instead of replacing it
+            k = "ROW:%s %s" % (w[0], w[1])
+            out.append(form(k[4:], overrides[k]))
+            seen.add(k)
+        elif w and w[0] in overrides and len(w) == 2:
             out.append(form(w[0], overrides[w[0]]))
             seen.add(w[0])
         else:
@@ -83,7 +89,9 @@ def write_cfg(overrides, name=None):
             # (a key of two words, such as "ions FE", re-defines a table row: the line is appended at the end of
             # the copy, after the shipped definition - the way parameter files are usually made)
             out.append(form(k, v))
+    assert all(k in seen for k in overrides if k.startswith("ROW:")), overrides
     name = name or "cfg-" + "-".join("%s%s" % (k[:6], v) for k, v in sorted(overrides.items())) + ".cfg"
+    name = name.replace(" ", "_").replace(":", "_")
     path = os.path.join(worker_tmp(), name)
     with open(path, "w") as fh:
         fh.write("\n".join(out) + "\n")
